@@ -411,13 +411,47 @@ impl Check for Blocks {
                     want.push("Integer(0)".into());
                     let expect = if want.len() == 1 { format!("checked:Ret(\"{}\")", want[0]) } else { format!("checked:Ret(\"({})\")", want.join(",")) };
                     if first != expect {
-                        // is it exactly the arguments of the parameters that are misassigned?
-                        let mut got_sorted: Vec<char> = first.chars().collect();
-                        let mut want_sorted: Vec<char> = expect.chars().collect();
-                        got_sorted.sort();
-                        want_sorted.sort();
-                        let params_n = sh.kinds.iter().filter(|k| **k == Kind::Param).count();
-                        let fp = if params_n >= 2 && got_sorted == want_sorted {
+                        // is it exactly the arguments of the parameters that are misassigned? i.e. does the
+                        // result equal the expected one after permuting the arguments among the parameters
+                        let params: Vec<usize> = (0..n).filter(|k| sh.kinds[*k] == Kind::Param).collect();
+                        let render = |assign: &Vec<usize>| -> String {
+                            // assign[i] = index of the parameter whose argument parameter params[i] receives
+                            let mut w = vec![];
+                            for k in 0..n {
+                                if sh.kinds[k].is_value() {
+                                    let mut j = k;
+                                    let val = loop {
+                                        if sh.kinds[j] == Kind::Param {
+                                            let i = params.iter().position(|p| *p == j).unwrap();
+                                            break 100 + params[assign[i]] as i64;
+                                        }
+                                        match sh.vref[j] {
+                                            | Some(t) => j = t,
+                                            | None => break 7 + j as i64,
+                                        }
+                                    };
+                                    w.push(format!("Integer({})", val));
+                                }
+                            }
+                            w.push("Integer(0)".into());
+                            if w.len() == 1 { format!("checked:Ret(\"{}\")", w[0]) } else { format!("checked:Ret(\"({})\")", w.join(",")) }
+                        };
+                        fn perms(n: usize) -> Vec<Vec<usize>> {
+                            if n == 0 {
+                                return vec![vec![]];
+                            }
+                            let mut out = vec![];
+                            for p in perms(n - 1) {
+                                for i in 0..=p.len() {
+                                    let mut q = p.clone();
+                                    q.insert(i, n - 1);
+                                    out.push(q);
+                                }
+                            }
+                            out
+                        }
+                        let permuted = params.len() >= 2 && perms(params.len()).iter().any(|a| render(a) == first);
+                        let fp = if permuted {
                             "block parameters receive their arguments out of textual order"
                         } else {
                             "an acyclic block computes the wrong values"
